@@ -85,6 +85,27 @@ fn main() {
     std::env::set_var("NUN_DBS_DIR", &default_dir);
     let mut rep = Report { property: prop.clone(), tier: if ctx.quick() { "quick".into() } else { "thorough".into() }, seed, worker, ..Default::default() };
     let t0 = Instant::now();
+    if let Some(path) = arg(&args, "--decode-bytes") {
+        // an input of a cargo-fuzz target (fuzz/fuzz_targets) -> the replay file of the case it decodes to
+        let data = std::fs::read(&path).expect("cannot read the fuzz input");
+        let case = match prop.as_str() {
+            "C10" => nv::fuzzglue::decode_c10(&data).map(|c| serde_json::to_value(c).unwrap()),
+            "C12" => Some(serde_json::to_value(nv::fuzzglue::decode_c12(&data)).unwrap()),
+            _ => None,
+        };
+        let to = arg(&args, "--to").expect("--decode-bytes needs --to FILE");
+        match case {
+            Some(case) => {
+                let body = serde_json::json!({"property": prop, "engine": "fuzz-bytes", "sig": "", "detail": format!("decoded from {}", path), "env": {}, "case": case});
+                std::fs::write(&to, serde_json::to_string_pretty(&body).unwrap()).unwrap();
+                std::process::exit(0);
+            }
+            None => {
+                eprintln!("no decoder for {} / empty input", prop);
+                std::process::exit(2);
+            }
+        }
+    }
     let code = if let Some(path) = arg(&args, "--replay") {
         let text = std::fs::read_to_string(&path).expect("cannot read replay file");
         let j: serde_json::Value = serde_json::from_str(&text).expect("replay file is not JSON");
